@@ -21,7 +21,9 @@ func ProcessProfile(profileText string, debug bool, eventChan *chan e.Event) (*r
 	return CompileRego(regoUnit, eventChan)
 }
 
-func GenerateRego(profileText string, debug bool, eventChan *chan e.Event) (*generator.RegoUnit, error) {
+func GenerateRego(profileText string, debug bool, eventChan *chan e.Event) (unit *generator.RegoUnit, err error) {
+	defer recoverAsError(&err)
+
 	// Parse profile
 	dispatchEvent(e.NewEvent(e.ProfileParsingStart), eventChan)
 	parsed, err := parser.Parse(profileText)
@@ -48,7 +50,9 @@ var unsafeBuiltinsMap = map[string]struct{}{
 	ast.RegoParseModule.Name: {},
 }
 
-func CompileRego(regoUnit *generator.RegoUnit, eventChan *chan e.Event) (*rego.PreparedEvalQuery, error) {
+func CompileRego(regoUnit *generator.RegoUnit, eventChan *chan e.Event) (compiled *rego.PreparedEvalQuery, err error) {
+	defer recoverAsError(&err)
+
 	dispatchEvent(e.NewEvent(e.RegoCompilationStart), eventChan)
 	query := rego.Query("data." + regoUnit.Name + "." + regoUnit.Entrypoint)
 	module := rego.Module(regoUnit.Name+".rego", regoUnit.Code)
